@@ -31,7 +31,7 @@ ASSUMPTIONS = [
     'come from the harness own table of LIS film layouts',
     'absent values are generated in runs of even length so that no interpolated edge crossing can fall on the depth of an absent frame',
     'frame depths are identified inside the SVG by a reference curve (constant, always present) plotted in the same film',
-    'the last frame of the interval (X stop itself) need not be plotted (the frame slice of the plot excludes its stop)',
+    'the last one or two frames of the interval need not be plotted (the frame slice of the plot excludes its stop, which is found by a floor division of X values)',
 ]
 MECHANISMS = [
     ('TotalDepth.util.plot.PRESCfg', 'LineTransLin.wrapPos'), ('TotalDepth.util.plot.PRESCfg', 'LineTransLog10.wrapPos'),
@@ -48,7 +48,7 @@ TIMEOUT_S = {'quick': 400, 'thorough': 3300}
 NSHARDS = 16
 N_WRAP = {'quick': 200000, 'thorough': 10000000}
 N_GEN = {'quick': 6, 'thorough': 42}          # generated FILM/PRES files per shard (1-2 films each)
-N_XML = {'quick': 3, 'thorough': 14}          # XML-format LIS files per shard (each plotted with every matching format)
+N_XML = {'quick': 2, 'thorough': 14}          # XML-format LIS files per shard (each plotted with every matching format)
 N_LAS = {'quick': 2, 'thorough': 8}
 EPS = sys.float_info.epsilon
 TOL_PT = 0.051
@@ -150,27 +150,31 @@ def check_wrap_case(rec, P, case, cap):
     klass = P.LineTransLog10 if log else P.LineTransLin
     w_ = {'kind': 'log' if log else 'lin', 'leftP': lp, 'rightP': rp, 'leftL': ll, 'rightL': rl, 'value': v, 'backup': bname,
           'leftL_hex': float(ll).hex(), 'rightL_hex': float(rl).hex(), 'value_hex': float(v).hex(), 'value_class': vc}
-    extreme = max(abs(ll), abs(rl), abs(v)) > 1e21 or (0 < min(abs(x) for x in (ll, rl, v) if x) < 1e-21 if any((ll, rl, v)) else False)
+    # "all finite values": an intermediate (v - lL, rL - lL, v / lL, rL / lL or their quotient) that leaves the normal double range
+    # makes the case a separately labelled class that is counted, not judged
+    big, small = Fraction(sys.float_info.max), Fraction(sys.float_info.min)
+    if log:
+        inters = [abs(Fraction(v) / Fraction(ll)), abs(Fraction(rl) / Fraction(ll))]
+    else:
+        a, b = abs(Fraction(v) - Fraction(ll)), abs(Fraction(rl) - Fraction(ll))
+        inters = [a, b] + ([a / b] if b else [])
+    out_of_range = any(x > big or (x != 0 and x < small) for x in inters)
+    extreme = max(abs(ll), abs(rl), abs(v)) > 1e21 or any(0 < abs(x) < 1e-21 for x in (ll, rl, v))
     try:
         t = klass(lp, rp, ll, rl, bu)
         w, pos = t.wrapPos(v)
         l2p = t.L2P(v)
     except (OverflowError, ValueError, ZeroDivisionError) as e:
-        # judged against "all finite values": only an intermediate that leaves the double range excuses it
-        with decimal.localcontext() as c:
-            c.prec = 60
-            inter = (abs(Fraction(v) - Fraction(ll)) if not log else abs(Fraction(v) / Fraction(ll)))
-            inter2 = abs(Fraction(rl) - Fraction(ll)) if not log else abs(Fraction(rl) / Fraction(ll))
-        big = Fraction(sys.float_info.max)
-        small = Fraction(sys.float_info.min)
-        if extreme and (inter > big or inter2 > big or (log and (inter < small or inter2 < small)) or
-                        (not log and inter / inter2 > big)):
-            rec.cls('extreme-intermediate-overflow-raises')
+        if out_of_range:
+            rec.cls('wrap:intermediate-out-of-double-range:raises-' + type(e).__name__)
             return None
         if cap['n'] < 20:
             cap['n'] += 1
             rec.violation('wrap_identity_' + w_['kind'], 'raises', 'wrapPos(%r) on %s scale %r..%r raised %s: %s' % (v, w_['kind'], ll, rl, type(e).__name__, e),
                           dict(w_, exception=type(e).__name__), exc=e)
+        return None
+    if out_of_range:
+        rec.cls('wrap:intermediate-out-of-double-range:returns')
         return None
     rec.mon('wrap_identity_' + w_['kind'])
     rec.mon('wrap_in_track')
@@ -359,12 +363,22 @@ def check_svg(rec, path, what, cap, model=None, film=None, ref_name=None, absent
     # ---- frame depths from the reference curve
     yref = None
     if ref_name is not None:
-        rp = [p for name, pts, tag in secs if name == ref_name for p in pts]
-        xs = {round(p[0], 1) for p in rp}
-        if nframes is not None and len(rp) in (nframes - 1, nframes) and len(xs) == 1 and len({p[1] for p in rp}) == len(rp):
-            yref = [p[1] for p in rp]
+        # the reference channel may feed several curves of the format: each gives the same depths
+        polys = [pts for name, pts, tag in secs if name == ref_name]
+        ys = []
+        seen = set()
+        const_x = all(len({round(x, 1) for x, y in pts}) == 1 for pts in polys)
+        for pts in polys:
+            for x, y in pts:
+                if y not in seen:
+                    seen.add(y)
+                    ys.append(y)
+        mono = all(b > a for a, b in zip(ys, ys[1:])) or all(b < a for a, b in zip(ys, ys[1:]))
+        if nframes is not None and len(ys) in (nframes - 2, nframes - 1, nframes) and const_x and mono and polys:
+            yref = ys
         else:
             rec.add('reference_curve_unusable')
+            rec.note('reference_unusable_example', {'plot': what, 'ref': ref_name, 'polylines': len(polys), 'depths': len(ys), 'frames': nframes, 'const_x': const_x})
     if yref is None:
         return npoly
     # ---- no point for absent values
@@ -417,12 +431,19 @@ def check_svg(rec, path, what, cap, model=None, film=None, ref_name=None, absent
                 if r is None:
                     continue
                 w, fr = r
+                # the double evaluation of the normalised position carries a relative error of a few eps: its effect on the
+                # in-track position grows with |wrap|; when it reaches a quarter of the track the position is unconstrained
+                slack = 16 * EPS * (abs(w) + 1) * (xr - xl) * (1 + (1 / abs(math.log(c.redg / c.ledg)) if c.log else 0))
+                if slack > (xr - xl) / 4:
+                    expected.append((i, ci, None, 0.0))
+                    continue
                 cands = [(w, fr)]
-                if fr < Fraction(1, 10 ** 6):
+                edge = Fraction(1, 10 ** 6) + Fraction(slack / (xr - xl))
+                if fr < edge:
                     cands.append((w - 1, Fraction(1)))
-                elif fr > 1 - Fraction(1, 10 ** 6):
+                elif fr > 1 - edge:
                     cands.append((w + 1, Fraction(0)))
-                expected.append((i, ci, [(ww, xl + float(ff) * (xr - xl)) for ww, ff in cands]))
+                expected.append((i, ci, [(ww, xl + float(ff) * (xr - xl)) for ww, ff in cands], slack))
         sec_polys = [pts for name, pts, tag in secs if name == sec]
         rec.mon('svg_in_track')
         for pts in sec_polys:
@@ -440,16 +461,25 @@ def check_svg(rec, path, what, cap, model=None, film=None, ref_name=None, absent
             ymap.setdefault(round(y, 1), []).append(x)
         missing = None
         data_xy = set()
-        for i, ci, cands in expected:
+        wild_y = set()
+        for i, ci, cands, slack in expected:
             c = curves[ci]
-            need = [xx for ww, xx in cands if c.on_scale(ww)]
-            optional = [xx for ww, xx in cands]
             y = yref[i]
-            xs_here = [x for k in (round(y - 0.1, 1), round(y, 1), round(y + 0.1, 1)) for x in ymap.get(k, []) ]
-            for xx in optional:
-                data_xy.add((round(xx, 1), round(y, 1)))
+            if cands is None:
+                for dy in (-0.1, 0.0, 0.1):
+                    wild_y.add(round(y + dy, 1))
+                continue
+            need = [xx for ww, xx in cands if c.on_scale(ww)]
+            xs_here = [x for k in (round(y - 0.1, 1), round(y, 1), round(y + 0.1, 1)) for x in ymap.get(k, [])]
+            for ww, xx in cands:
+                for dx in (-0.1, 0.0, 0.1):
+                    data_xy.add((round(xx + dx, 1), round(y, 1)))
+                if slack > 0.02:
+                    for j in range(int(slack / 0.1) + 2):
+                        data_xy.add((round(xx + 0.1 * j, 1), round(y, 1)))
+                        data_xy.add((round(xx - 0.1 * j, 1), round(y, 1)))
             if len(need) == len(cands) and need:
-                if not any(abs(x - xx) <= TOL_PT + 0.05 for x in xs_here for xx in need):
+                if not any(abs(x - xx) <= TOL_PT + 0.05 + slack for x in xs_here for xx in need):
                     missing = (i, ci, need, y, xs_here[:6])
                     break
         if missing and cap['n'] < 20:
@@ -470,7 +500,7 @@ def check_svg(rec, path, what, cap, model=None, film=None, ref_name=None, absent
             # a data point of some frame?
             k = bisect.bisect_left(yset, y - TOL_PT)
             at_frame = k < len(yset) and yset[k] <= y + TOL_PT
-            if at_frame and any((round(x + dx, 1), round(y + dy, 1)) in data_xy for dx in (-0.1, 0, 0.1) for dy in (-0.1, 0, 0.1)):
+            if at_frame and (round(y, 1) in wild_y or any((round(x + dx, 1), round(y + dy, 1)) in data_xy for dx in (-0.1, 0, 0.1) for dy in (-0.1, 0, 0.1))):
                 continue
             stray = (x, y, at_frame)
             break
@@ -589,6 +619,21 @@ def xml_curve_table(formats_dir):
     return out
 
 
+def configured_outputs(table):
+    """{UniqueId: set of channel names the format really configures a curve for}: a format file may name channels on tracks
+    the reader does not support; "a curve named by the plot format" is taken as "named in the file and configured"."""
+    from TotalDepth.util.plot import FILMCfgXML, PRESCfgXML
+    fc = FILMCfgXML.FilmCfgXMLRead()
+    out = {}
+    for uid in sorted(table):
+        try:
+            pc = PRESCfgXML.PresCfgXMLRead(fc, uid)
+            out[uid] = {o.pStr(strip=True) for o in pc.outpChIDs(fc[uid].name)}
+        except KeyError:
+            out[uid] = set()       # a format without curves (blank grids)
+    return out
+
+
 def pick_reference(chmap, names):
     """A channel of the format whose curves are all linear with a common interior value -> (name, value)."""
     for nm in names:
@@ -602,56 +647,57 @@ def pick_reference(chmap, names):
     return None, None
 
 
-def plot_xml_lis(ctx, k, cap, table):
+def inside_all(cs, v):
+    return bool(cs) and all((not lg) and min(l, r) < v < max(l, r) for l, r, lg in cs)
+
+
+def plot_xml_lis(ctx, k, cap, table, conf):
     from tdv.gen import plotsrc as PS
     from TotalDepth.LIS.core import File, FileIndexer
     from TotalDepth.util.plot import Plot
     rec = ctx.rec
     rng = ctx.sub_rng('xml', k)
-    uids = sorted(table)
-    # channel names: those of one format (all of them) plus a few of others, LIS mnemonics hold 4 characters
+    uids = [u for u in sorted(table) if conf[u]]
+    # channel names: those of one format plus a few of others; LIS mnemonics hold 4 characters
     uid0 = uids[(ctx.shard * 7 + k) % len(uids)]
-    pool = [n for n in table[uid0] if len(n) <= 4]
-    extra = sorted({n for u in uids for n in table[u] if len(n) <= 4})
-    names = []
-    for n in pool[:10] + rng.sample(extra, min(6, len(extra))):
+    pool = [n for n in table[uid0] if len(n) <= 4 and n in conf[uid0]]
+    extra = sorted({n for u in uids for n in table[u] if len(n) <= 4 and n in conf[u]})
+    ref, refval = pick_reference(table[uid0], pool)
+    names = [ref] if ref else []
+    for n in rng.sample(pool, min(len(pool), 9)) + rng.sample(extra, min(6, len(extra))):
         if n not in names:
             names.append(n)
     if not names:
         return
-    ref, refval = pick_reference(table[uid0], names)
     spec = PS.xml_format_spec(rng, names)
+    n = spec['nframes']
+    up, x_units = spec['up'], spec['x_units']
+    spacing = PS.q68(0.5 if x_units == b'FEET' else 0.1524)
+    x0 = spec['x0'] * (1.0 if x_units == b'FEET' else 0.3048)
+    xs = [PS.q68(x0 - spacing * i if up else x0 + spacing * i) for i in range(n)]
+    chan = {}
+    absent = {}
     shapes = {}
-    for n in names:
-        key = (n.encode() + b'    ')[:4]
-        shapes[key] = rng.choice(['constant', 'ramp', 'sine', 'spiky', 'huge', 'tiny', 'negative', 'absent-runs', 'absent-runs', 'steps', 'zero'])
-    spec['shapes'] = shapes
-    data, m = PS.lis_plot_file(rng, spec)
-    # scale the curve shapes to each channel's first scale in uid0, and force the reference channel
-    # (values were generated for 0..1; regenerate against the format's limits)
-    import struct
-    vals_by = {}
-    n = len(m.x)
     for nm in names:
-        key = (nm.encode() + b'    ')[:4]
         cs = table[uid0].get(nm) or [c for u in uids for c in table[u].get(nm, [])][:1] or [(0.0, 1.0, False)]
         l, r, lg = cs[0]
         if l == r or (lg and (l <= 0 or r <= 0)):
             l, r, lg = 0.0, 1.0, False
         if nm == ref:
+            shapes[nm] = 'reference'
             v = [PS.q68(refval)] * n
             ab = set()
-            m.shapes[key] = 'reference'
         else:
-            v = [PS.q68(x) for x in PS.shape_values(rng, shapes[key], n, l, r)]
-            ab = PS.absent_runs(rng, n) if shapes[key] == 'absent-runs' else set()
-        v = [PS.NULL if i in ab else (x if x != PS.NULL else 0.0) for i, x in enumerate(v)]
-        m.channels[key] = v
-        m.absent[key] = ab
-    frames = [PS.enc68(m.x[i])[0] + b''.join(PS.enc68(m.channels[c][i])[0] for c in spec['channels']) for i in range(n)]
-    per = max(1, min(m.frames_per_record, (n + 1) // 2))
-    chans = [(b'DEPT', m.x_units)] + [(c, b'    ') for c in spec['channels']]
-    lrs = [PS.file_head_tail(128), PS.dfsr(chans, m.up, m.spacing, m.x_units)] + PS.data_records(frames, per) + [PS.file_head_tail(129)]
+            shapes[nm] = rng.choice(['constant', 'ramp', 'sine', 'spiky', 'huge', 'tiny', 'negative', 'absent-runs', 'absent-runs', 'steps', 'zero', 'edge'])
+            v = [PS.q68(x) for x in PS.shape_values(rng, shapes[nm], n, l, r)]
+            ab = PS.absent_runs(rng, n) if shapes[nm] == 'absent-runs' else set()
+        chan[nm] = [PS.NULL if i in ab else (x if x != PS.NULL else 0.0) for i, x in enumerate(v)]
+        absent[nm] = ab
+    keys = [(nm.encode('ascii') + b'    ')[:4] for nm in names]
+    frames = [PS.enc68(xs[i])[0] + b''.join(PS.enc68(chan[nm][i])[0] for nm in names) for i in range(n)]
+    per = max(1, min(rng.choice([1, 3, 8, 20]), (n + 1) // 2, (1024 - 6) // len(frames[0])))
+    chans = [(b'DEPT', x_units)] + [(kk, b'    ') for kk in keys]
+    lrs = [PS.file_head_tail(128), PS.dfsr(chans, up, spacing, x_units)] + PS.data_records(frames, per) + [PS.file_head_tail(129)]
     data = PS.physical(lrs)
     fp = _tmp(ctx, 'xml%d.lis' % k)
     with open(fp, 'wb') as f:
@@ -663,14 +709,17 @@ def plot_xml_lis(ctx, k, cap, table):
         raise RuntimeError('generated XML-format LIS file not read as written')
     lp = lps[0]
     for uid in uids:
-        matching = [nm for nm in names if nm in table[uid]]
+        named = [nm for nm in names if nm in table[uid]]
+        matching = [nm for nm in named if nm in conf[uid]]
+        if named and not matching:
+            rec.cls('format-names-channel-it-does-not-configure')
         if not matching:
             continue
         rec.mon('lis_produces_plot')
         wit = {'source': 'generated LIS, channels named for XML formats', 'format': uid, 'channels': names, 'matching': matching,
-               'shapes': {nm: m.shapes[(nm.encode() + b'    ')[:4]] for nm in matching}, 'up': m.up, 'frames': n, 'lis': data[:3000]}
+               'shapes': {nm: shapes[nm] for nm in matching}, 'up': up, 'frames': n, 'lis': data[:3000]}
         out = _tmp(ctx, 'xml%d_%s.svg' % (k, re.sub(r'\W', '_', uid)))
-        classes = ['plot:lis-xml-format', 'format:' + uid, 'plot:up' if m.up else 'plot:down'] + ['curve:shape-%s' % wit['shapes'][nm] for nm in matching]
+        classes = ['plot:lis-xml-format', 'format:' + uid, 'plot:up' if up else 'plot:down'] + ['curve:shape-%s' % shapes[nm] for nm in matching]
         try:
             pl = Plot.PlotReadXML(uid)
             has = pl.hasDataToPlotLIS(lp, uid)
@@ -686,23 +735,16 @@ def plot_xml_lis(ctx, k, cap, table):
             rec.case(('xmlplot', data, uid), False, classes=classes + ['plot:none'])
             if cap['n'] < 20:
                 cap['n'] += 1
-                rec.violation('lis_produces_plot', 'no-plot', 'LIS log pass with channels %r named by format %s produced no plot' % (matching, uid), wit)
+                rec.violation('lis_produces_plot', 'no-plot', 'LIS log pass with channels %r configured by format %s produced no plot' % (matching, uid), wit)
             continue
-        absent = {nm: m.absent[(nm.encode() + b'    ')[:4]] for nm in matching}
-        use_ref = ref if (uid == uid0 and ref in matching) else None
-        if use_ref is None:
-            r2, v2 = pick_reference(table[uid], matching)
-            # only usable when the value that was written is inside that format's scales too
-            if r2 is not None and r2 == ref:
-                cs = table[uid][r2]
-                if all(min(l, rr) < refval < max(l, rr) for l, rr, lg in cs):
-                    use_ref = r2
-        npoly = check_svg(rec, out, 'LIS with XML format %s' % uid, cap, model=None, ref_name=use_ref, absent_by_section=absent if use_ref else None,
-                          nframes=n, witness=wit)
+        # the reference channel is usable in this format when the value written lies strictly inside all of its (linear) scales here
+        use_ref = ref if (ref in matching and inside_all(table[uid].get(ref), refval)) else None
+        npoly = check_svg(rec, out, 'LIS with XML format %s' % uid, cap, model=None, ref_name=use_ref,
+                          absent_by_section={nm: absent[nm] for nm in matching} if use_ref else None, nframes=n, witness=wit)
         rec.case(('xmlplot', data, uid), bool(npoly), classes=classes)
-        if npoly == 0 and cap['n'] < 20:
+        if npoly == 0 and use_ref and cap['n'] < 20:
             cap['n'] += 1
-            rec.violation('lis_produces_plot', 'no-curve', 'plot with format %s has no curve polyline although channels %r match' % (uid, matching), wit)
+            rec.violation('lis_produces_plot', 'no-curve', 'plot with format %s has no curve polyline although channel %r holds an in-scale constant' % (uid, use_ref), wit)
         try:
             os.unlink(out)
         except OSError:
@@ -753,48 +795,68 @@ def plot_example_lis(ctx, cap, tasks):
                     pass
 
 
-def plot_las(ctx, k, cap, table):
+def _cause(e):
+    c = e.__context__ or e.__cause__
+    return ('%s: %s' % (type(c).__name__, str(c)[:200])) if c is not None else None
+
+
+def plot_las(ctx, k, cap, table, conf):
     """LAS text whose curves are named by a plot format: must give a plot with at least one curve."""
-    import io
     from tdv.gen import plotsrc as PS
     from TotalDepth.LAS.core import LASRead
     from TotalDepth.LIS.core import Mnem
     from TotalDepth.util.plot import Plot, XMLMatches
     rec = ctx.rec
     rng = ctx.sub_rng('las', k)
-    uids = sorted(table)
+    uids = [u for u in sorted(table) if conf[u]]
+    ok = lambda n, u: re.fullmatch(r'[A-Z][A-Z0-9_]*', n) and n in conf[u]   # noqa
     uid0 = uids[(ctx.shard * 5 + k * 3) % len(uids)]
-    pool = sorted(set(n for n in table[uid0] if re.fullmatch(r'[A-Z][A-Z0-9_]*', n)))
-    if not pool:
-        uid0 = 'Triple_Combo' if 'Triple_Combo' in table else uids[0]
-        pool = sorted(set(n for n in table[uid0] if re.fullmatch(r'[A-Z][A-Z0-9_]*', n)))
-    names = rng.sample(pool, min(len(pool), rng.randrange(1, 6)))
+    pool = sorted(set(n for n in table[uid0] if ok(n, uid0)))
+    ref, refval = pick_reference(table[uid0], pool)
+    names = [ref] if ref else []
+    for nm in rng.sample(pool, min(len(pool), rng.randrange(1, 6))):
+        if nm not in names:
+            names.append(nm)
+    if not names:
+        return None, [], {}
     up = rng.random() < 0.4
-    text, m = PS.las_plot_text(rng, names, nframes=rng.choice([20, 40, 80]), up=up)
+    shapes = {nm: rng.choice(['constant', 'sine', 'ramp', 'spiky', 'absent-runs']) for nm in names}
+    text, m = PS.las_plot_text(rng, names, nframes=rng.choice([20, 40, 80]), up=up, shapes=shapes)
+    if ref:
+        # overwrite the reference column with an in-scale constant
+        lines = text.split('\n')
+        ia = [i for i, l in enumerate(lines) if l.startswith('~A')][0]
+        col = 1 + names.index(ref)
+        for i in range(ia + 1, len(lines)):
+            t = lines[i].split()
+            if len(t) > col:
+                t[col] = '%.4f' % refval
+                lines[i] = ' ' + ' '.join(t)
+        text = '\n'.join(lines)
+        m.channels[ref] = [float('%.4f' % refval)] * len(m.x)
+        m.absent[ref] = set()
     fp = _tmp(ctx, 'p%d.las' % k)
     with open(fp, 'w') as f:
         f.write(text)
     las = LASRead.LASRead(fp)
     if las.number_of_frames() != len(m.x):
         raise RuntimeError('generated LAS not read as written')
-    # mechanism probes (recorded in the witness so that the classifier decides by mechanism, not by outcome alone)
-    probe = {}
-    try:
-        probe['has_output_mnemonic_str'] = bool(las.has_output_mnemonic(names[0]))
-    except Exception as e:  # noqa
-        probe['has_output_mnemonic_str'] = 'raises ' + type(e).__name__
-    try:
-        probe['has_output_mnemonic_Mnem'] = bool(las.has_output_mnemonic(Mnem.Mnem(names[0].encode('ascii'))))
-    except Exception as e:  # noqa
-        probe['has_output_mnemonic_Mnem'] = 'raises ' + type(e).__name__
-    probe['LASRead_has_hasOutpMnem'] = hasattr(las, 'hasOutpMnem')
+    # mechanism probes, kept in the witness so that the classifier decides by mechanism
+    probe = {'has_str': {}, 'has_Mnem': {}}
+    for nm in names:
+        for key, arg in (('has_str', nm), ('has_Mnem', Mnem.Mnem(nm.encode('ascii'), len_mnem=0))):
+            try:
+                probe[key][nm] = bool(las.has_output_mnemonic(arg))
+            except Exception as e:  # noqa
+                probe[key][nm] = 'raises ' + type(e).__name__
+    probe['LASRead_lacks'] = [a for a in ('hasOutpMnem', 'genOutpPoints', 'curveUnitsAsStr', 'nullValue', 'xAxisUnits') if not hasattr(las, a)]
     try:
         fmap = XMLMatches.fileCurveMap(las)
         probe['fileCurveMap'] = {u: len(v) for u, v in fmap.items() if v}
     except Exception as e:  # noqa
         probe['fileCurveMap'] = 'raises %s: %s' % (type(e).__name__, str(e)[:120])
     for uid in uids:
-        matching = [nm for nm in names if nm in table[uid]]
+        matching = [nm for nm in names if nm in table[uid] and nm in conf[uid]]
         if not matching:
             continue
         rec.mon('las_produces_plot')
@@ -818,18 +880,19 @@ def plot_las(ctx, k, cap, table):
             if cap['las'] < 12:
                 cap['las'] += 1
                 rec.violation('las_produces_plot', 'no-plot',
-                              'LAS file with curves %r named by format %s produced no plot (hasDataToPlotLAS=%r)' % (matching, uid, wit.get('hasDataToPlotLAS')), wit)
+                              'LAS file with curves %r configured by format %s produced no plot (hasDataToPlotLAS=%r)' % (matching, uid, wit.get('hasDataToPlotLAS')), wit)
             continue
-        absent = {nm: m.absent[nm] for nm in matching}
-        npoly = check_svg(rec, out, 'LAS with XML format %s' % uid, cap, witness=wit)
+        use_ref = ref if (ref in matching and inside_all(table[uid].get(ref), refval)) else None
+        npoly = check_svg(rec, out, 'LAS with XML format %s' % uid, cap, ref_name=use_ref,
+                          absent_by_section={nm: m.absent[nm] for nm in matching} if use_ref else None, nframes=len(m.x), witness=wit)
         rec.case(('lasplot', text, uid), bool(npoly), classes=classes)
-        if npoly == 0 and cap['las'] < 12:
+        if npoly == 0 and use_ref and cap['las'] < 12:
             cap['las'] += 1
-            rec.violation('las_produces_plot', 'no-curve', 'LAS plot with format %s has no curve polyline although curves %r match' % (uid, matching), wit)
+            rec.violation('las_produces_plot', 'no-curve', 'LAS plot with format %s has no curve polyline although curve %r holds an in-scale constant' % (uid, use_ref), wit)
     return fp, names, probe
 
 
-def plotlogs_end_to_end(ctx, cap, lis_path, las_path, las_names, table, probe):
+def plotlogs_end_to_end(ctx, cap, lis_path, las_path, las_names, table, conf, probe):
     """PlotLogs.PlotLogPasses (the command line tool's class) on one generated LIS and one LAS file."""
     import types
     from TotalDepth import PlotLogs
@@ -839,78 +902,99 @@ def plotlogs_end_to_end(ctx, cap, lis_path, las_path, las_names, table, probe):
     for kind, fp in (('LIS', lis_path), ('LAS', las_path)):
         if fp is None:
             continue
+        mon = 'lis_produces_plot' if kind == 'LIS' else 'las_produces_plot'
         if kind == 'LIS':
             opts = types.SimpleNamespace(recurse=False, keepGoing=True, LgFormat=[], apiHeader=False, LgFormat_min=0, scale=0)
+            wit = {'input': 'LIS', 'source': 'PlotLogs.PlotLogPasses'}
         else:
-            fmts = [u for u in sorted(table) if any(n in table[u] for n in las_names)][:2]
+            fmts = [u for u in sorted(table) if any(n in table[u] and n in conf[u] for n in las_names)][:2]
             opts = types.SimpleNamespace(recurse=False, keepGoing=True, LgFormat=fmts, apiHeader=False, LgFormat_min=0, scale=0)
+            wit = dict(probe, input='LAS', source='PlotLogs.PlotLogPasses', formats=fmts, curves=las_names,
+                       matching=[n for n in las_names if any(n in conf[u] for u in fmts)])
         dst = os.path.join(outdir, os.path.basename(fp))
+        rec.mon('plotlogs_' + kind.lower())
         try:
             plp = PlotLogs.PlotLogPasses(fp, dst, opts)
         except Exception as e:  # noqa
-            rec.violation('plotlogs', 'raises', 'PlotLogPasses on %s raised %s: %s' % (kind, type(e).__name__, e), {'input': kind, 'exception': type(e).__name__}, exc=e)
-            continue
-        svgs = sorted(f for f in os.listdir(outdir) if f.startswith(os.path.basename(fp)) and f.endswith('.svg'))
-        rec.mon('plotlogs_' + kind.lower())
-        rec.case(('plotlogs', kind, ctx.shard), bool(svgs), classes=['plot:PlotLogs-' + kind])
-        if not svgs:
-            mon = 'lis_produces_plot' if kind == 'LIS' else 'las_produces_plot'
+            rec.case(('plotlogs', kind, ctx.shard), False, classes=['plot:PlotLogs-' + kind, 'plot:raised'])
             if cap['las'] < 14:
                 cap['las'] += 1
-                rec.violation(mon, 'plotlogs-no-plot', 'PlotLogs.PlotLogPasses wrote no SVG for the %s file' % kind,
-                              dict(probe if kind == 'LAS' else {}, input=kind, source='PlotLogs.PlotLogPasses', formats=getattr(opts, 'LgFormat', []),
-                                   info=str(plp.plotLogInfo)[:300]))
-        for s in svgs:
-            check_svg(rec, os.path.join(outdir, s), 'PlotLogs %s %s' % (kind, s[-24:]), cap, witness={'input': kind, 'source': 'PlotLogs.PlotLogPasses'})
+                rec.violation(mon, 'plotlogs-raises', 'PlotLogPasses on the %s file raised %s: %s' % (kind, type(e).__name__, e),
+                              dict(wit, exception=type(e).__name__, message=str(e)[:300], cause=_cause(e)), exc=e)
+            continue
+        svgs = sorted(f for f in os.listdir(outdir) if f.startswith(os.path.basename(fp)) and f.endswith('.svg'))
+        rec.case(('plotlogs', kind, ctx.shard), bool(svgs), classes=['plot:PlotLogs-' + kind])
+        if not svgs and cap['las'] < 14:
+            cap['las'] += 1
+            rec.violation(mon, 'plotlogs-no-plot', 'PlotLogs.PlotLogPasses wrote no SVG for the %s file' % kind, dict(wit, info=str(plp.plotLogInfo)[:300]))
+        for sname in svgs:
+            check_svg(rec, os.path.join(outdir, sname), 'PlotLogs %s %s' % (kind, sname[-24:]), cap, witness=wit)
 
 
 def run_shard(ctx, p):
     import logging
-    logging.disable(logging.CRITICAL)
+    import time
     import warnings
+    logging.disable(logging.CRITICAL)
     warnings.simplefilter('ignore')
     from tdv.core import env
     rec = ctx.rec
+    t0 = time.time()
     run_wrap(ctx, p['n_wrap'])
+    rec.add('seconds_wrap', round(time.time() - t0, 2))
+    t0 = time.time()
     cap = {'n': 0, 'las': 0}
     formats_dir = os.path.join(env.REPO, 'src', 'TotalDepth', 'util', 'plot', 'formats')
     table = xml_curve_table(formats_dir)
+    conf = configured_outputs(table)
     rec.note('xml_plot_formats', sorted(table))
     for k in range(p['n_gen']):
         plot_generated_lis(ctx, k, cap)
     if p['part'] % 4 == 0:
         plot_generated_lis(ctx, 1000, cap, single_record=True)
     for k in range(p['n_xml']):
-        plot_xml_lis(ctx, k, cap, table)
+        plot_xml_lis(ctx, k, cap, table, conf)
     # example files: (file, mode, format) tasks dealt round-robin over the shards
     exdir = os.path.join(env.REPO, 'example_data', 'LIS', 'data')
     tasks = []
     for fn in sorted(os.listdir(exdir)):
         tasks.append((fn, 'internal', None))
         for uid in sorted(table):
-            tasks.append((fn, 'xml', uid))
+            if conf[uid]:
+                tasks.append((fn, 'xml', uid))
     plot_example_lis(ctx, cap, tasks[p['part']::p['parts']])
     las_fp = las_names = probe = None
     for k in range(p['n_las']):
-        las_fp, las_names, probe = plot_las(ctx, k, cap, table)
+        r = plot_las(ctx, k, cap, table, conf)
+        if r[0]:
+            las_fp, las_names, probe = r
     lis_fp = _tmp(ctx, 'gen0.lis')
-    plotlogs_end_to_end(ctx, cap, lis_fp if os.path.exists(lis_fp) else None, las_fp, las_names or [], table, probe or {})
+    plotlogs_end_to_end(ctx, cap, lis_fp if os.path.exists(lis_fp) else None, las_fp, las_names or [], table, conf, probe or {})
+    rec.add('seconds_plots', round(time.time() - t0, 2))
 
 
 # ------------------------------------------------------------------------------------------------ known findings
+LAS_IFACE = ('hasOutpMnem', 'genOutpPoints', 'curveUnitsAsStr', 'nullValue', 'xAxisUnits')
+
+
 @classifier('c19_las_plot_path_dead')
 def _c19_las(v):
-    """F17: LASRead lost the frame-holder interface the plot code calls (hasOutpMnem ...), and has_output_mnemonic() is
-    asked with a Mnem object that never equals the str curve names - so no LAS file ever has data to plot."""
+    """F17: LASRead lost the frame-holder interface the plot code calls (hasOutpMnem, genOutpPoints, curveUnitsAsStr, nullValue,
+    xAxisUnits) and has_output_mnemonic() is asked with a Mnem object: a dict keyed by str finds it only when the name has
+    exactly four characters (equal bytes/str hash, Mnem.__eq__ coerces), so shorter curve names never have data to plot and
+    four character names run into the missing methods."""
     w = v.get('witness') or {}
     if v.get('monitor') != 'las_produces_plot' or w.get('input') != 'LAS':
         return False
-    dead_a = w.get('LASRead_has_hasOutpMnem') is False
-    dead_b = w.get('has_output_mnemonic_str') is True and w.get('has_output_mnemonic_Mnem') is False
+    lacks = w.get('LASRead_lacks') or []
+    text = ' '.join(str(w.get(k) or '') for k in ('message', 'cause')) + ' ' + (v.get('traceback') or '')
+    missing_attr = any(("'LASRead' object has no attribute '%s'" % a) in text for a in LAS_IFACE)
     if v.get('kind') in ('no-plot', 'plotlogs-no-plot'):
-        return dead_b and (w.get('hasDataToPlotLAS') in (False, None))
-    if v.get('kind') == 'raises':
-        return dead_a and w.get('exception') == 'AttributeError' and 'LASRead' in (w.get('message') or '')
+        hs, hm = w.get('has_str') or {}, w.get('has_Mnem') or {}
+        m = w.get('matching') or []
+        return bool(m) and w.get('hasDataToPlotLAS') in (False, None) and all(hs.get(n) is True and hm.get(n) is False for n in m)
+    if v.get('kind') in ('raises', 'plotlogs-raises'):
+        return bool(lacks) and missing_attr
     return False
 
 
